@@ -85,6 +85,25 @@ func (jenny *Builder) generateBuilder(context languages.Context, builder ast.Bui
 	fullObjectName := jenny.typeFormatter.formatRef(builder.For.SelfRef)
 	buildObjectSignature := fullObjectName
 
+	// an alias is declared as `Alias: typing.TypeAlias = 'Target'`: it can't be called.
+	// The class to instantiate is the struct at the end of the chain of references.
+	constructorName := fullObjectName
+	visited := map[string]struct{}{}
+	for current := builder.For; current.Type.IsRef(); {
+		ref := current.Type.AsRef()
+		if _, seen := visited[ref.String()]; seen {
+			break
+		}
+		visited[ref.String()] = struct{}{}
+
+		referred, found := context.LocateObjectByRef(ref)
+		if !found {
+			break
+		}
+		constructorName = jenny.typeFormatter.formatRef(referred.SelfRef)
+		current = referred
+	}
+
 	jenny.apiRefCollector.BuilderMethod(builder, common.MethodReference{
 		Name: "build",
 		Comments: []string{
@@ -162,5 +181,6 @@ func (jenny *Builder) generateBuilder(context languages.Context, builder ast.Bui
 			"Builder":              builder,
 			"BuilderSignatureType": buildObjectSignature,
 			"ObjectName":           fullObjectName,
+			"ConstructorName":      constructorName,
 		})
 }
